@@ -40,6 +40,10 @@ type ValCfg struct {
 	MaxList  int // typical list length bound
 	LongList bool
 	MaxStr   int
+	// Huge: one top-level dynamic string of 32768..65535 bytes and one top-level list of more
+	// than 32767 one-byte numbers, where the configured prefix types can count that far (the
+	// upper half of a two-byte prefix, where a signed reading goes negative)
+	Huge bool
 }
 
 func genScalar(t *rapid.T, typ, label string) uint64 {
@@ -149,6 +153,7 @@ func genPacketVal(t *rapid.T, p *Program, k *Packet, vc ValCfg, label string, de
 			pick[f.Name] = pr
 		}
 	}
+	hugeStr, hugeList := false, false
 	for i, f := range k.Fields {
 		fl := label + "." + f.Name
 		one := func(il string) Val {
@@ -158,6 +163,11 @@ func genPacketVal(t *rapid.T, p *Program, k *Packet, vc ValCfg, label string, de
 			case KFixed:
 				return Val{S: genFixed(t, p, f, il)}
 			case KDyn:
+				if vc.Huge && depth == 0 && !f.Repeat && prefixCap(cfg.SP) >= 65535 && !hugeStr {
+					hugeStr = true
+					n := rapid.SampledFrom([]int{32768, 40000, 65535, 32767}).Draw(t, il+"_huge")
+					return Val{S: []byte(strings.Repeat("h", n))}
+				}
 				ms := prefixCap(cfg.SP)
 				if vc.MaxStr > 0 && vc.MaxStr < ms {
 					ms = vc.MaxStr
@@ -188,6 +198,16 @@ func genPacketVal(t *rapid.T, p *Program, k *Packet, vc ValCfg, label string, de
 				maxN = 3
 			}
 			var n int
+			if vc.Huge && depth == 0 && !hugeList && f.Kind == KScalar && ScalarSize(f.Type) == 1 && f.Type != "char" && capN >= 65535 {
+				hugeList = true
+				n = rapid.SampledFrom([]int{32768, 33000, 65535}).Draw(t, fl+"_hugelist")
+				v := Val{IsL: true}
+				for j := 0; j < n; j++ {
+					v.L = append(v.L, Val{U: uint64(j % 251)})
+				}
+				out.F[i] = v
+				continue
+			}
 			switch rapid.IntRange(0, 9).Draw(t, fl+"_lcls") {
 			case 0, 1:
 				n = 0
